@@ -55,3 +55,27 @@ def cid_replacement_only_for_retired(ctx, rule, instance):
         ctx.check(ok, rule, instance, he, c.where(), 'send_new_identifiers(now, ch, 1) only under `if let Some(cid) = loc_cids.remove(&seq)`',
                   'a replacement CID is issued even when the retired sequence number was not on record (repeated RETIRE_CONNECTION_ID mints CIDs without bound)')
     ctx.floor(rule, instance + '_replacement_sites', n, 1)
+
+
+def every_processed_packet_is_counted(ctx, rule, instance):
+    """Connection::handle_packet: every path to process_decrypted_packet passes on_packet_authenticated, except over
+    the `state.is_closed()` edge.  The count `total_authed_packets` gates Retry and Version Negotiation
+    (`> 1` = "another packet from the server was already accepted"); a packet kind that skips the count (e.g.
+    Retry, which has no packet number) leaves those gates open for a forged second Retry / late VN."""
+    F = ctx.facts
+    hp = ctx.pfn('Connection::handle_packet')
+    pdp = hp.calls_to('Connection::process_decrypted_packet')
+    opa = hp.calls_to('Connection::on_packet_authenticated')
+    ctx.floor(rule, instance + '_process_sites', len(pdp), 1)
+    ctx.floor(rule, instance + '_count_sites', len(opa), 1)
+    closed_edges = set()
+    for br, truth, tgt in bool_edges(ctx, hp, lambda d: d[0] == 'call' and d[1] == 'State::is_closed'):
+        # only the is_closed() test that guards the counting call itself
+        if truth and any(hp.dominates(br.bb, c.bb) and c.bb not in hp.reachable_from(tgt, avoid=[br.bb]) for c in opa):
+            closed_edges.add((br.bb, tgt))
+    ctx.floor(rule, instance + '_closed_edges', len(closed_edges), 1)
+    avoid = [c.bb for c in opa]
+    for c in pdp:
+        reach = hp.reachable_from(0, avoid=avoid, avoid_edges=closed_edges)
+        ctx.check(c.bb not in reach, rule, instance, hp, c.where(), 'on_packet_authenticated precedes process_decrypted_packet on every path of an open connection',
+                  'a packet reaches process_decrypted_packet without being counted by on_packet_authenticated (other than on the is_closed() edge)')
